@@ -129,7 +129,10 @@ def check_trace(events, cfg, aborted):
                           fill={kk: e[kk] for kk in ('o', 'side', 'qty', 'price', 't')})
             # ---- cycle / trade bookkeeping ----
             cy = cycle.get(sym)
-            fill = {'o': e['o'], 'side': e['side'], 'qty': abs(float(e['qty'])), 'price': e['price'], 't': e['t'],
+            fq = abs(float(e['qty']))
+            if eff == ['oversize_close']:
+                fq = abs(float(cur))      # a reduce-only order larger than the position is filled for the position size only
+            fill = {'o': e['o'], 'side': e['side'], 'qty': fq, 'price': e['price'], 't': e['t'],
                     'ro': ro, 'market': e['type'] == 'MARKET', 'in_liq': e.get('in_liq', 0), 'eff': eff}
             if eff[0] == 'open':
                 cycle[sym] = {'side': 'long' if q > 0 else 'short', 'fills': [fill], 'weird': []}
